@@ -156,18 +156,16 @@ EXPORT errno_t _ctime_s_chk(char *dest, rsize_t dmax, const time_t *timer,
     if (dmax >= 120) { /* glibc reserves 114 */
         buf = ctime_r(timer, dest);
         if (!buf) {
-#ifdef SAFECLIB_STR_NULL_SLACK
-            memset(dest, 0, dmax);
-#else
-            *dest = '\0';
-#endif
+            handle_error(dest, dmax, "ctime_s: conversion failed", -1);
             return -1;
         }
     } else {
         char tmp[120];
         buf = ctime_r(timer, (char *)&tmp);
-        if (!buf)
+        if (!buf) {
+            handle_error(dest, dmax, "ctime_s: conversion failed", -1);
             return -1;
+        }
         len = strlen(buf);
         if (likely(len < dmax)) {
             strcpy_s(dest, dmax, buf);
